@@ -251,3 +251,214 @@ def run(c, facts):
     c.shared(R4, c08.r1_innermost, 'C08.R1', facts)
     c.shared(R4, c08.r2_pairing, 'C08.R2', facts)
     c.shared(R4, c08.r3_eager, 'C08.R3', facts)
+    c.run(r5_name_agree, facts)
+    c.run(r6_enum_map, facts)
+
+
+# ------------------------------------------------------------------------------------------- R5 NAME-AGREE
+SYN = {'description': 'desc', 'operationid': 'id', 'operation_id': 'id', 'items': 'item', 'enum': 'enumeration'}
+
+
+def norm(n):
+    n = n.replace('_', '').lower()
+    return SYN.get(n, n).replace('_', '')
+
+
+def spec_sources(fn, op, idx):
+    """spec fields (Struct.field) whose value flows into a MIR operand"""
+    if 'l' not in op:
+        return set()
+    out = set()
+
+    def last_spec_field(place):
+        fs = [(SPEC_OWNER.match(p.get('owner', '')).group(2), p['name']) for p in place.get('proj', [])
+              if p['p'] == 'field' and SPEC_OWNER.match(p.get('owner', ''))]
+        return fs[-1:] if fs else []
+    sl = MF.slice_back(fn, op['l'], idx)
+    for l in sl['locals']:
+        for kind, bi, s in idx.get(l, []):
+            if kind in ('assign', 'field'):
+                rv = s['rv']
+                pl = rv.get('place') or rv.get('op')
+                if pl:
+                    for o, n in last_spec_field(pl):
+                        out.add((o, n))
+            elif kind == 'call':
+                for a in s['args']:
+                    for o, n in last_spec_field(a):
+                        out.add((o, n))
+    for o, n in last_spec_field(op):
+        out.add((o, n))
+    return out
+
+
+def r5_name_agree(c, facts):
+    R = c.rule('C02.R5', 'NAME-AGREE: a document field is filled from the like-named source field / annotation key (no crossed fields)')
+    naggr = 0
+    spec_fields = {}
+    for q, a in facts.adts.items():
+        m = re.match(r'oal_compiler::spec::(\w+)$', q)
+        if m and not a['enum']:
+            spec_fields[m.group(1)] = {norm(f): f for f, _ in a['variants'][0]['fields']}
+    for fn in sorted(facts.fns.values(), key=lambda f: f.qname):
+        if fn.crate != 'oal_openapi' or not fn.mir:
+            continue
+        idx = MF.defs_index(fn)
+        for b, blk in fn.blocks():
+            for s in blk['stmts']:
+                if not (s['s'] == 'assign' and s['rv']['r'] == 'aggr' and s['rv'].get('ak') == 'adt' and s['rv']['adt'].startswith('openapiv3::') and not s['rv']['is_enum']):
+                    continue
+                rows = {fld: spec_sources(fn, op, idx) for fld, op in zip(s['rv']['fields'], s['rv']['ops'])}
+                rows = {k: v for k, v in rows.items() if v}
+                if not rows:
+                    continue
+                naggr += 1
+                structs = {o for v in rows.values() for o, _ in v}
+                targets = {norm(k): k for k in s['rv']['fields']}
+                tname = s['rv']['adt'].split('::')[-1]
+                for fld, srcs in rows.items():
+                    nf = norm(fld)
+                    inst = {'fn': fn.qname, 'aggregate': tname, 'field': fld, 'from': sorted('%s.%s' % x for x in srcs)}
+                    # Rule B: a like-named source field exists in one of the involved structs -> it must be among the sources
+                    like = [(o, spec_fields[o][nf]) for o in structs if o in spec_fields and nf in spec_fields[o]]
+                    crossed = [(o, n) for o, n in srcs if norm(n) in targets and norm(n) != nf and any(o2 == o for o2, _ in like)]
+                    delegated = any(callee_of(t2) and callee_of(t2).get('local') for n2, t2, _ in MF.slice_back(fn, s['rv']['ops'][s['rv']['fields'].index(fld)]['l'], idx)['calls'])
+                    if like and not any(x in srcs for x in like) and delegated:
+                        c.skip(R, '%s:%s.%s' % (fn.qname.split('::')[-1], tname, fld), 'value computed by a workspace helper; the like-named source is read there')
+                    elif like and not any(x in srcs for x in like):
+                        c.bad(R, '%s:%s.%s:not-from-like-named-field' % (fn.qname.split('::')[-1].split('{')[0].rstrip(':'), tname, fld),
+                              '%s fills %s.%s from %s although the source has a field %s: the declared %s is dropped or attached elsewhere'
+                              % (fn.qname, tname, fld, inst['from'], ['%s.%s' % x for x in like], fld), **inst)
+                    elif crossed:
+                        c.bad(R, '%s:%s.%s:crossed' % (fn.qname.split('::')[-1], tname, fld),
+                              '%s fills %s.%s (also) from %s, which is the source of another field of the same object' % (fn.qname, tname, fld, ['%s.%s' % x for x in crossed]), **inst)
+                    else:
+                        c.ok(R, inst)
+    c.floor(R, 'document aggregates with spec-derived fields', naggr, 15)
+    # evaluator side: annotation keys
+    nkeys = 0
+    for fn in sorted(facts.fns.values(), key=lambda f: f.qname):
+        if not fn.qname.startswith('oal_compiler::eval::eval_') and not fn.qname.startswith('oal_compiler::eval::cast_') or not fn.mir:
+            continue
+        idx = MF.defs_index(fn)
+        for b, blk in fn.blocks():
+            for s in blk['stmts']:
+                if not (s['s'] == 'assign' and s['rv']['r'] == 'aggr' and s['rv'].get('ak') == 'adt' and SPEC_OWNER.match(s['rv']['adt']) and not s['rv']['is_enum']):
+                    continue
+                for fld, op in zip(s['rv']['fields'], s['rv']['ops']):
+                    if 'l' not in op:
+                        continue
+                    sl = MF.slice_back(fn, op['l'], idx, through_calls=False)
+                    keys = []
+                    for n, t, _ in sl['calls']:
+                        if re.search(r'annotation::Annotation::get_\w+$', P.strip(n)) and len(t['args']) > 1:
+                            k = t['args'][1]
+                            cands = [k] if k.get('o') == 'const' else MF.slice_back(fn, k['l'], idx, through_calls=False)['consts']
+                            for kc in cands:
+                                m = re.match(r'^(?:const )?"(.*)"$', kc.get('d', ''))
+                                if m:
+                                    keys.append(m.group(1))
+                    for k in keys:
+                        nkeys += 1
+                        inst = {'fn': fn.qname, 'field': '%s.%s' % (s['rv']['adt'].split('::')[-1], fld), 'annotation_key': k}
+                        if norm(k) == norm(fld):
+                            c.ok(R, inst)
+                        else:
+                            c.bad(R, '%s:%s.%s:annotation-key=%s' % (fn.qname.split('::')[-1], s['rv']['adt'].split('::')[-1], fld, k),
+                                  '%s fills %s.%s from the annotation `%s`: the annotation is attached to a different place than the language defines' % (fn.qname, s['rv']['adt'].split('::')[-1], fld, k), **inst)
+    c.floor(R, 'annotation keys feeding spec fields', nkeys, 25)
+
+
+# ------------------------------------------------------------------------------------------- R6 ENUM-MAP
+def match_map(fn, scrut_ty_contains):
+    """[(variant, target description)] of the first match in fn whose scrutinee type mentions scrut_ty_contains"""
+    from facts import hir_walk, pat_variants, variant_of, callee_def
+    out = []
+    for e, anc in hir_walk(fn.hir['body']):
+        if e['k'] == 'match' and e['src'] == 'Normal' and scrut_ty_contains in e['scrut']['ty']:
+            for arm in e['arms']:
+                vs = [v for v in pat_variants(arm['pat']) if v]
+                b = arm['body']
+                while b['k'] == 'block' and b['expr'] is not None:
+                    b = b['expr']
+                tgt = None
+                if b['k'] == 'path' and b['p'].get('res') == 'def':
+                    tgt = variant_of(b['p'])
+                elif b['k'] == 'lit':
+                    tgt = b['v']
+                elif b['k'] == 'call':
+                    tgt = (callee_def(b) or '').split('::')[-1]
+                    if tgt == 'Some' and b['args'] and b['args'][0]['k'] == 'lit':
+                        tgt = b['args'][0]['v']
+                    # Expr::X(Box::new(PrimY {..})) : take the boxed struct name if any
+                    for x, _ in hir_walk(b):
+                        if x['k'] == 'struct' and x is not b:
+                            tgt = tgt + ':' + (variant_of(x['path']) or '')
+                            break
+                elif b['k'] == 'mcall':
+                    tgt = b['name']
+                elif b['k'] == 'assign':
+                    l = b['l']
+                    if l['k'] == 'field':
+                        tgt = l['name']
+                        r = b['r']
+                        if r['k'] == 'call' and r['args'] and r['args'][0]['k'] == 'lit':
+                            tgt += '=' + r['args'][0]['v']
+                for v in vs:
+                    out.append((v, tgt))
+            if out:
+                return out
+    return out
+
+
+def r6_enum_map(c, facts):
+    R = c.rule('C02.R6', 'ENUM-MAP: the sibling mapping tables of the front end and the emitter agree with the language')
+    low = lambda s: (s or '').lower()
+
+    def suffix(prefix):
+        return lambda v, t: v.startswith(prefix) and low(v[len(prefix):]) == low(t)
+    frozen = lambda table: (lambda v, t: table.get(v) is not None and low(table[v]) in low(t))
+    TABLES = [
+        ('oal_syntax::parser::Method::method', 'TokenKind', suffix('Method'), 'keyword -> HTTP method'),
+        ('oal_syntax::parser::Primitive::kind', 'TokenKind', suffix('Primitive'), 'keyword -> primitive kind'),
+        ('oal_syntax::parser::Literal::kind', 'TokenKind', suffix('Literal'), 'token -> literal kind'),
+        ('oal_syntax::parser::ContentTag::kind', 'TokenKind', suffix('Content'), 'keyword -> content tag'),
+        ('oal_syntax::parser::Operator::variadic', 'TokenKind', frozen({'OperatorDoubleColon': 'Range', 'OperatorAmpersand': 'Join', 'OperatorTilde': 'Any', 'OperatorVerticalBar': 'Sum'}), ':: & ~ | (language definition)'),
+        ('oal_syntax::parser::Operator::unary', 'TokenKind', frozen({'OperatorExclamationMark': 'Required', 'OperatorQuestionMark': 'Optional'}), '! ? (language definition)'),
+        ('oal_syntax::parser::OptionMark::required', 'TokenKind', frozen({'OperatorExclamationMark': 'Bool(true)', 'OperatorQuestionMark': 'Bool(false)'}), '! = required, ? = optional'),
+        ('oal_openapi::Builder::method_label', 'Method', lambda v, t: low(v) in low(t), 'method -> lower-case label'),
+        ('oal_openapi::Builder::relation_path_item', 'Method', lambda v, t: low(t) == low(v), 'method -> PathItem field'),
+        ('oal_compiler::eval::eval_unary_operation', 'UnaryOperator', frozen({'Optional': 'required=Bool(false)', 'Required': 'required=Bool(true)'}), 'optional / required marks'),
+        ('oal_compiler::eval::eval_primitive', 'PrimitiveKind', lambda v, t: ({'Bool': 'primboolean', 'Int': 'priminteger', 'Num': 'primnumber', 'Str': 'primstring', 'Uri': 'uri'}.get(v, '#') in low(t)), 'primitive kind -> schema value'),
+        ('oal_compiler::eval::eval_literal', 'LiteralKind', lambda v, t: True, 'literal kind (checked in C01)'),
+        ('oal_openapi::Builder::value_schema', 'SchemaExpr', lambda v, t: low(t).startswith({'Num': 'number', 'Str': 'string', 'Bool': 'boolean', 'Int': 'integer', 'Rel': 'rel', 'Uri': 'uri', 'Object': 'object', 'Array': 'array', 'Op': '', 'Ref': ''}.get(v, '#')), 'schema expression -> schema builder'),
+        ('oal_openapi::Builder::value_schema', 'VariadicOperator', lambda v, t: low(t).startswith({'Join': 'join', 'Sum': 'sum', 'Any': 'any', 'Range': ''}.get(v, '#')), 'operator -> composition builder'),
+        ('oal_compiler::eval::cast_schema', 'Expr', frozen({'Object': 'Object', 'PrimInteger': 'Int', 'PrimNumber': 'Num', 'PrimString': 'Str', 'PrimBoolean': 'Bool', 'Array': 'Array', 'Uri': 'Uri', 'VariadicOp': 'Op', 'Reference': 'Ref', 'Relation': 'Rel', 'Recursion': 'Ref'}), 'value -> schema expression'),
+    ]
+    for q, ty, pred, what in TABLES:
+        fn = facts.fn(q)
+        if fn is None:
+            c.bad(R, 'anchor-missing:' + q, 'mapping function %s not found' % q)
+            continue
+        rows = [(v, t) for v, t in match_map(fn, ty) if t is not None]
+        if len(rows) < 2:
+            c.skip(R, q, 'mapping match not found or not interpretable')
+            continue
+        for v, t in rows:
+            inst = {'table': q.split('::')[-1] + ' (' + what + ')', 'from': v, 'to': t}
+            if pred(v, t):
+                c.ok(R, inst)
+            else:
+                c.bad(R, '%s:%s->%s' % (q.split('::', 1)[1], v, re.sub(r'[^A-Za-z0-9=()]', '', t)[:40]),
+                      '%s maps %s to %s: this disagrees with the language definition / the sibling tables (%s)' % (q, v, t, what), **inst)
+    # composition builders
+    for q, kind in (('oal_openapi::Builder::join_schema', 'AllOf'), ('oal_openapi::Builder::sum_schema', 'OneOf'), ('oal_openapi::Builder::any_schema', 'AnyOf')):
+        fn = facts.fn(q)
+        if fn is None:
+            c.bad(R, 'anchor-missing:' + q, '%s not found' % q)
+            continue
+        got = sorted({s['rv']['variant'] for b, blk in fn.blocks() for s in blk['stmts'] if s['s'] == 'assign' and s['rv']['r'] == 'aggr' and s['rv'].get('adt', '').endswith('SchemaKind')})
+        if got == [kind]:
+            c.ok(R, {'table': q.split('::')[-1], 'to': kind})
+        else:
+            c.bad(R, '%s:%s' % (q.split('::')[-1], ','.join(got)), '%s builds %s instead of %s' % (q, got, kind))
